@@ -12,6 +12,9 @@ package main
 //   cdrsize create  <h> <supiHex> <nfHex> <nusage> <ncont> <upflen>
 //   cdrsize update  <h> <nusage> <ncont> <upflen>
 //   cdrsize release <h> <nusage> <ncont> <upflen>
+//   cdrsize fit   <h> <delta>     an update sized at run time: len(record) + len(usage) = 65535 + delta
+//   cdrsize fiton <h> <delta>     the same, and the first container reports ONLINE_CHARGING usage with a QUOTA_THRESHOLD
+//                                 trigger (the update that crosses the record limit also cuts the session's first partial record)
 //   cdrsize end
 //
 // <h> is a session handle chosen by the generator; the reference it stands for is whatever the
@@ -41,6 +44,7 @@ var (
 	sizeSessions = map[string]*sizeSess{}
 	sizeCounter  uint64
 	sizeSent     = map[string]int{} // subscriber -> containers carried by its accepted requests
+	sizeOnline   bool               // the next request's first container is online usage with a trigger
 )
 
 func init() {
@@ -75,6 +79,13 @@ func sizeReq(s *sizeSess, nusage, ncont, upflen int) *models.ChfConvergedChargin
 			c.DownlinkVolume = int32(k % 251)
 			c.ServiceSpecificUnits = int32(k % 16777213)
 			c.LocalSequenceNumber = int32(sizeCounter)
+			if sizeOnline && i == 0 && j == 0 {
+				c.QuotaManagementIndicator = models.QuotaManagementIndicator_ONLINE_CHARGING
+				c.Triggers = []models.ChfConvergedChargingTrigger{{TriggerType: models.ChfConvergedChargingTriggerType_QUOTA_THRESHOLD, TriggerCategory: models.TriggerCategory_IMMEDIATE_REPORT}}
+				c.TotalVolume, c.UplinkVolume, c.DownlinkVolume, c.ServiceSpecificUnits = 3, 1, 2, 0
+				u.RequestedUnit = &models.RequestedUnit{TotalVolume: 50}
+				r.Triggers = []models.ChfConvergedChargingTrigger{{TriggerType: models.ChfConvergedChargingTriggerType_VOLUME_LIMIT, TriggerCategory: models.TriggerCategory_IMMEDIATE_REPORT}}
+			}
 			u.UsedUnitContainer = append(u.UsedUnitContainer, c)
 		}
 		r.MultipleUnitUsage = append(r.MultipleUnitUsage, u)
@@ -102,12 +113,22 @@ func runCdrSize(line string, t []string) string {
 	var s *sizeSess
 	h := p.next()
 	if t[0] == "create" {
-		s = &sizeSess{supi: p.hexs(), nf: p.hexs()}
+		s = &sizeSess{supi: saltSupi(p.hexs()), nf: p.hexs()}
 	} else {
 		s = sizeSessions[h]
 	}
 	kind := t[0]
 	var nusage, ncont, upflen int
+	sizeOnline = false
+	if kind == "fiton" {
+		if s == nil {
+			return "bad-op"
+		}
+		sizeOnline = true
+		store.set(s.supi, 1, "100000000", "1")
+		kind = "fit"
+	}
+	defer func() { sizeOnline = false }()
 	if kind == "fit" {
 		// an update sized at run time so that len(record) + len(usage) = 65535 + delta exactly
 		delta := int(p.i())
@@ -180,6 +201,15 @@ func runCdrSize(line string, t []string) string {
 		rs = strings.Join(recs, ";")
 	}
 	return fmt.Sprintf("st=%d pre=%d chg=%d cont=%d:%d:%d file=%s recs=%s", w.Code, pre, chg, recorded, len(distinct), sizeSent[s.supi], file, rs)
+}
+
+// The CHF writes /tmp/<supi>.cdr, and several checks may run this stream at the same time: five digits of the
+// subscriber identifier are replaced by digits of the process id (same length, so every size is unchanged).
+func saltSupi(supi string) string {
+	if len(supi) >= 15 && strings.HasPrefix(supi, "imsi-") {
+		return supi[:5] + fmt.Sprintf("%05d", os.Getpid()%100000) + supi[10:]
+	}
+	return supi
 }
 
 // size of the record the session currently writes to (-1: none), as the CHF marshals it
@@ -256,40 +286,55 @@ func genCdrSize(o genOpts, w *bufio.Writer) {
 		fmt.Fprintf(w, "cdrsize %s %s %d %d %d\n", kind, hs, nu, nc, upf)
 	}
 	// 1. many small updates on one session: the record grows through the 127/255/65535 header boundaries
-	scenario(func(mk func(string, string, int, int, int) string) {
-		hs := mk("imsi-208930000000001", "smf1", 0, 0, 0)
-		n := 40
-		if big {
-			n = 160
-		}
-		for i := 0; i < n; i++ {
-			op("update", hs, 1+r.intn(3), 5+r.intn(60), r.intn(12))
-		}
-		op("release", hs, 1, 2, 4)
-	})
-	// 2. updates sized to land just below / at / above the limit, then a release that adds usage
-	for _, fill := range []int{2300, 2500, 2590, 2600, 2610} {
+	if o.mode != "online" {
 		scenario(func(mk func(string, string, int, int, int) string) {
-			hs := mk("imsi-208930000000002", "smf", 1, 3, 3)
-			op("update", hs, 1, fill, 5)
-			op("update", hs, 1, 20+r.intn(30), 5)
-			op("update", hs, 2, 10, 0)
-			op("release", hs, 1, 30+r.intn(100), 5)
+			hs := mk("imsi-208930000000001", "smf1", 0, 0, 0)
+			n := 40
+			if big {
+				n = 160
+			}
+			for i := 0; i < n; i++ {
+				op("update", hs, 1+r.intn(3), 5+r.intn(60), r.intn(12))
+			}
+			op("release", hs, 1, 2, 4)
+		})
+		// 2. updates sized to land just below / at / above the limit, then a release that adds usage
+		for _, fill := range []int{2300, 2500, 2590, 2600, 2610} {
+			scenario(func(mk func(string, string, int, int, int) string) {
+				hs := mk("imsi-208930000000002", "smf", 1, 3, 3)
+				op("update", hs, 1, fill, 5)
+				op("update", hs, 1, 20+r.intn(30), 5)
+				op("update", hs, 2, 10, 0)
+				op("release", hs, 1, 30+r.intn(100), 5)
+			})
+		}
+		// 2b. updates sized at run time so that record + usage is exactly 65535 + delta, on a fresh and on a grown record
+		for _, delta := range []int{-8, -3, -2, -1, 0, 1, 2, 5, 8, 40, 120, 200, 340} {
+			scenario(func(mk func(string, string, int, int, int) string) {
+				hs := mk("imsi-208930000000007", "smf", 0, 0, 0)
+				fmt.Fprintf(w, "cdrsize fit %s %d\n", hs, delta)
+				op("release", hs, 0, 0, 0)
+			})
+			scenario(func(mk func(string, string, int, int, int) string) {
+				hs := mk("imsi-208930000000008", "smf", 1, 4, 3)
+				op("update", hs, 1, 900, 3)
+				fmt.Fprintf(w, "cdrsize fit %s %d\n", hs, delta)
+				op("release", hs, 0, 0, 0)
+			})
+		}
+	}
+	// 2c. the update that crosses the limit is also the session's first online report with a trigger
+	for _, delta := range []int{-2, 1, 40, 340} {
+		scenario(func(mk func(string, string, int, int, int) string) {
+			hs := mk("imsi-208930000000009", "smf", 1, 4, 3)
+			op("update", hs, 1, 900, 3)
+			fmt.Fprintf(w, "cdrsize fiton %s %d\n", hs, delta)
+			op("update", hs, 1, 2, 3)
+			op("release", hs, 0, 0, 0)
 		})
 	}
-	// 2b. updates sized at run time so that record + usage is exactly 65535 + delta, on a fresh and on a grown record
-	for _, delta := range []int{-8, -3, -2, -1, 0, 1, 2, 5, 8, 40, 120, 200, 340} {
-		scenario(func(mk func(string, string, int, int, int) string) {
-			hs := mk("imsi-208930000000007", "smf", 0, 0, 0)
-			fmt.Fprintf(w, "cdrsize fit %s %d\n", hs, delta)
-			op("release", hs, 0, 0, 0)
-		})
-		scenario(func(mk func(string, string, int, int, int) string) {
-			hs := mk("imsi-208930000000008", "smf", 1, 4, 3)
-			op("update", hs, 1, 900, 3)
-			fmt.Fprintf(w, "cdrsize fit %s %d\n", hs, delta)
-			op("release", hs, 0, 0, 0)
-		})
+	if o.mode == "online" {
+		return
 	}
 	// 3. one request larger than a whole record (update, create, release)
 	scenario(func(mk func(string, string, int, int, int) string) {
